@@ -68,6 +68,15 @@ func genC16(t *rapid.T) C16Case {
 	if _, ok := expectedSigner(c.SP); !ok {
 		c.SP.SignRequests = false
 	}
+	if rapid.IntRange(0, 5).Draw(t, "manyContexts") == 0 {
+		// a long RequestedAuthnContext list: the AuthnRequest grows beyond 4 / 8 / 32 KiB
+		k := rapid.SampledFrom([]int{40, 90, 400}).Draw(t, "nContextsLarge")
+		rac := &h.RAC{Comparison: "exact"}
+		for i := 0; i < k; i++ {
+			rac.Contexts = append(rac.Contexts, fmt.Sprintf("urn:oasis:names:tc:SAML:2.0:ac:classes:Custom%04d", i))
+		}
+		c.SP.RAC = rac
+	}
 	return c
 }
 
@@ -184,7 +193,10 @@ func (c *C16Case) build(relay string) ([]byte, []byte, error) {
 func checkC16(c C16Case) h.Outcome {
 	o := h.Outcome{}
 	o.NonTrivial = strings.ContainsAny(c.Relay, `"'<>&`) || strings.Contains(c.Relay, "-->") || strings.Contains(strings.ToLower(c.Relay), "script")
-	o.Classes = []string{"flow:" + c.Flow, "doc:" + c.DocKind, fmt.Sprintf("relayEmpty:%v", c.Relay == ""), fmt.Sprintf("relayHostile:%v", o.NonTrivial), fmt.Sprintf("urlHasQuery:%v", strings.Contains(c.URL, "?"))}
+	if len(c.DocXML) > 4096 || (c.SP.RAC != nil && len(c.SP.RAC.Contexts) >= 40) {
+		o.Classes = append(o.Classes, "doc:large")
+	}
+	o.Classes = append(o.Classes, "flow:"+c.Flow, "doc:"+c.DocKind, fmt.Sprintf("relayEmpty:%v", c.Relay == ""), fmt.Sprintf("relayHostile:%v", o.NonTrivial), fmt.Sprintf("urlHasQuery:%v", strings.Contains(c.URL, "?")))
 	if strings.ContainsAny(c.Relay, "\r\n") {
 		o.Classes = append(o.Classes, "relay:newline")
 	}
